@@ -53,6 +53,7 @@ struct World {
 	std::vector<std::function<void(J &)>> result_hooks;
 	Models *models = nullptr;     // model peers (sessions / forward scenarios)
 	std::function<bool(const J &)> op_hook;   // scenario-specific ops
+	size_t up_chunk = 0;          // largest upstream data chunk (decoded bytes) seen from a real client so far (for frames aligned with it)
 	std::map<std::string, std::deque<uint16_t>> recent_ids;   // per real client: DNS ids of its latest queries (for spoofers that must not match)
 
 	virtual ~World() { for (auto m : owned) delete m; }
